@@ -106,7 +106,7 @@ class ProbeError(Exception):
         self.a, self.b = a, b
 
     def __reduce__(self):
-        return (ProbeError, (self.a, self.b))
+        return (ProbeError, (self.a, self.b), dict(self.__dict__))
 
 
 class BareError(Exception):
